@@ -156,6 +156,12 @@ def classify(cls, where, deck):
         return 'facet_unchecked_in_skipped_cell'
     if cls == 'facet_zero':
         return 'facet_zero_selects_last'
+    if cls == 'hex_nonprism':
+        # third outcome of six planes that are no hexagonal prism (besides the
+        # endless walk and the anonymous ZeroDivisionError): hexSortSides happens
+        # to accept six intersections that close a tour (C07_base_vectors_by_shape)
+        # and the run finishes normally with a meaningless lattice
+        return 'hex_lattice_nonprism_accepted'
     return None
 
 
@@ -185,6 +191,8 @@ WITNESSES = {
         '5 0 5 imp:n=0\n\n11 p 0.5 0.5 -0.5 -2.0\n12 p 1.0 -0.5 -1.0 0.5\n'
         '13 p 0.0 2.0 -1.0 0.5\n14 p 1.0 -1.0 1.0 -0.5\n15 p 2.0 -0.5 0.0 1.0\n'
         '16 p 1.0 2.0 0.5 0.5\n5 so 10\n6 so 0.5\n\n', []),
+    'hex_lattice_nonprism_accepted': (
+        'c17 generated deck\n1 0 -13 -7 -8\n2 0 21 -22 -23 -24 25 -26 u=1 lat=2 fill=-1:0 -1:1 1 0 2 2 0 2\n3 0 -13 -8 fill=1\n6 0 13 8 u=2\n7 0 -8\n\n5 rec 0.5 -2 -2 0 0 1.7998046875 4.0244140625 0 0 0 1.251953125 0\n7 cx 2.0419921875\n8 cx 3.0537109375\n13 kx -2 0.267578125 -1\n21 p 2 -0.5 -1 0.5\n22 p 0.5 1 0.5 2\n23 p -0.5 -1 0 2\n24 p -1 0.5 2 1\n25 p 2 2 -1 -1\n26 p 0.5 0 0 2\n\nimp:n 1 1 1 1 0\n', ['--max-inline-score', '0.5']),
     'anonymous_error_surface_arity': (
         't\n1 0 -1 imp:n=1\n2 0 1 imp:n=0\n\n1 kz 1\n\n', []),
     'anonymous_error_tr_arity': (
